@@ -54,7 +54,8 @@ WDist(n, E(_, _), W(_, _), s) ==
                                     \cup (IF d[v] # INF THEN {d[v]} ELSE {})
                         IN  IF cand = {} THEN INF ELSE CHOOSE m \in cand : \A c \in cand : m <= c])
         RECURSIVE It(_, _)
-        It(d, k) == IF k = 0 THEN d ELSE It(Relax(d), k - 1)
+        It(d, k) == IF k = 0 THEN d
+                    ELSE LET d2 == Relax(d) IN IF d2 = d THEN d ELSE It(d2, k - 1)     \* fixpoint reached early
     IN  It(TLCEval([v \in VS(n) |-> IF v = s THEN 0 ELSE INF]), n)
 
 -----------------------------------------------------------------------------
